@@ -9,8 +9,8 @@ func init() {
 			l = &quick
 		}
 		*l = append(*l, &Job{Pkg: "", Func: "ZZ_C18_NonBlockingExact", Args: []int64{q, q}, Bounds: b})
-		*l = append(*l, &Job{Pkg: "", Func: "ZZ_C18_NonBlockingLive", Args: []int64{q, 2, 1*5 + 0}, Bounds: b})
-		thorough = append(thorough, &Job{Pkg: "", Func: "ZZ_C18_NonBlockingLive", Args: []int64{q, 3, 2*25 + 1*5 + 0}, Bounds: b})
+		*l = append(*l, &Job{Pkg: "", Func: "ZZ_C18_NonBlockingLive", Args: []int64{q, 2, 1*8 + 0}, Bounds: b})
+		thorough = append(thorough, &Job{Pkg: "", Func: "ZZ_C18_NonBlockingLive", Args: []int64{q, 3, 2*64 + 1*8 + 0}, Bounds: b})
 		for sc := int64(0); sc < 4; sc++ {
 			*l = append(*l, &Job{Pkg: "", Func: "ZZ_C18_Blocking", Args: []int64{q, sc, (q + sc) % 5}, Bounds: b})
 			thorough = append(thorough, &Job{Pkg: "", Func: "ZZ_C18_Blocking", Args: []int64{q, sc, (q + sc + 1) % 5}, Bounds: b})
